@@ -543,6 +543,13 @@ def run(ctx, replay=None):
                 "an edge value, an excluded datum or a short last bin).  distinct by canonical JSON.")
     ctx.trusted = TRUSTED
     core.proof_step(ctx, "C14", core.ALLOW_FLOAT)
+    # exact rational statistics cost 0.05-1 s per case: size the shards so that all cores are used (the
+    # default of 400 terms per file would leave most of them idle)
+    orig = core.coq_eval
+
+    def sized(workdir, preamble, terms, ty="Z", shard=400, **kw):
+        return orig(workdir, preamble, terms, ty=ty, shard=min(shard, max(8, min(100, -(-len(terms) // core.NCPU)))), **kw)
+    core.coq_eval = sized
     differential(ctx, PRE, ENTRIES, replay)
     ent = ENTRIES[1]
     if ent.monitors:
